@@ -8,13 +8,15 @@ false alarm that has to be corrected)."""
 import json, os, shutil, subprocess, sys
 ROOT = os.path.dirname(os.path.dirname(os.path.abspath(__file__)))
 out, tag = sys.argv[1], sys.argv[2]
-pids = sys.argv[3:] or [f"C{i:02d}" for i in range(1, 21)]
+pids = [a for a in sys.argv[3:] if not a.startswith("--")] or [f"C{i:02d}" for i in range(1, 21)]
 for i in sorted(os.listdir(out)):
     d = os.path.join(out, i)
     patch = os.path.join(d, "patch.diff")
     if not os.path.isfile(patch):
         continue
     meta = json.load(open(os.path.join(d, "meta.json")))
+    if os.path.exists(os.path.join(ROOT, "neutral", f"{tag}-{i}", "meta.json")) and "--redo" not in sys.argv:
+        continue
     if subprocess.run(["git", "-C", "/repo", "apply", "--check", patch], capture_output=True).returncode != 0:
         print(f"{tag}-{i}: does not apply")
         continue
